@@ -131,12 +131,28 @@ def nodeOf (s : McSys σ) (name : Nat) : R (McNode σ) :=
   | some n => .ok n
   | none => .error "unknown node"
 
+/-- is the node hosting the process crashed (`proc_node_is_crashed`) -/
+def procCrashed (s : McSys σ) (p : Nat) : R Bool :=
+  match s.net.procNode p with
+  | .error e => .error e
+  | .ok nd => match s.nodeOf nd with
+    | .error e => .error e
+    | .ok n => .ok n.crashed
+
 /-- `add_events` -/
 def addEvents (cfg : Cfg) : List Ev → McSys σ → R (McSys σ)
   | [], s => .ok s
   | ev :: rest, s =>
     let ev' : R Ev := match ev with
-      | .msg m src dst _ => s.net.sendMessage m src dst
+      | .msg m src dst _ =>
+        match s.net.sendMessage m src dst with
+        | .ok (.msg m' src' dst' o) =>
+          -- messages from or to a crashed node are lost even after a network reset (repair D14)
+          match s.procCrashed src', s.procCrashed dst' with
+          | .ok a, .ok b => if a || b then .ok (.dropped m' src' dst' none) else .ok (.msg m' src' dst' o)
+          | .error e, _ => .error e
+          | _, .error e => .error e
+        | r => r
       | e => .ok e
     match ev' with
     | .error e => .error e
